@@ -528,6 +528,7 @@ func bubbleWait() {
 
 // SimListener hands out prepared connections, then blocks until Close.
 type SimListener struct {
+	task    int // the scheduler task of the accept loop that uses this listener
 	rt      *Runtime
 	offer   chan net.Conn
 	closed  chan struct{}
@@ -548,7 +549,7 @@ func newSimListener(rt *Runtime) *SimListener {
 
 // Accept implements net.Listener.
 func (l *SimListener) Accept() (net.Conn, error) {
-	l.rt.K.Yield(l.rt.acceptTask, "accept")
+	l.rt.K.Yield(l.task, "accept")
 	select {
 	case <-l.closed:
 		return nil, net.ErrClosed
